@@ -381,6 +381,27 @@ func (w *LWorld) genFile(r *core.PRNG, p *LPkg, lf *LFile, fidx, ver int, deps [
 	if p.Path == "main" && first {
 		body = append(body, "func main() { }")
 	}
+	if !decoy && r.Chance(1, 3) {
+		// an initialiser that calls a function declared further down (declarations are hoisted)
+		body = append([]string{fmt.Sprintf("var hp%d = later%d() + 1", fidx, fidx)}, body...)
+		body = append(body, fmt.Sprintf("func later%d() int { return 7 }", fidx))
+	}
+	if !decoy && r.Chance(1, 3) {
+		// init functions written before the package-level code still run after it
+		var ini, rest []string
+		for _, l := range body {
+			if strings.HasPrefix(l, "func init()") {
+				ini = append(ini, l)
+			} else {
+				rest = append(rest, l)
+			}
+		}
+		body = append(ini, rest...)
+	}
+	if !decoy && r.Chance(1, 8) {
+		// a method that happens to be called init is a method, not a package initialiser
+		body = append(body, fmt.Sprintf("type pool%d struct { n int }", fidx), fmt.Sprintf("func (p *pool%d) init() { p.n = p.n + 1 }", fidx))
+	}
 	// declaration order inside a file is free for functions; keep statements in order
 	if r.Chance(1, 3) {
 		var fn, rest []string
